@@ -1,9 +1,13 @@
 //! Harness for the server_fn properties. `h_serverfn c13` reads cases on stdin (one sexp
 //! per line) and prints one observation per line.
+mod ax;
 mod errs;
 mod fns;
 mod glue;
 mod looprt;
+mod more;
+mod opts;
+mod ws;
 
 fn main() {
     let which = std::env::args().nth(1).unwrap_or_default();
@@ -23,9 +27,13 @@ fn c13(c: &vsexp::Sexp) -> vsexp::Sexp {
     looprt::FRAME.with(|f| f.set((h % 10, (h / 10) % 10)));
     looprt::RECHUNK.with(|r| r.set((0, 0)));
     match c.at(0).num() {
-        0..=6 | 16 => errs::run(c),
+        0..=6 | 16 | 23..=26 => errs::run(c),
         7..=9 => glue::run(c),
         10..=15 | 17 | 18 | 20 | 21 => fns::run(c),
+        22 => ws::run(c),
+        29 | 30 => opts::run(c),
+        31 | 32 => ax::run(c),
+        27 | 28 | 33..=35 => more::run(c),
         // a history: several calls on this thread, one after the other
         19 => vsexp::Lst(c.list()[1..].iter().map(c13).collect()),
         _ => vsexp::Lst(vec![]),
